@@ -126,7 +126,7 @@ def _run_property(ctx):
     vlib.audit(ctx, 'NbdimeProofs', THEOREMS)
     rng = ctx.rng
     reqs, metas = [], []
-    for t in range(160 if ctx.tier == 'quick' else 3000):
+    for t in range(220 if ctx.tier == 'quick' else 3000):
         b, l, r, kinds = gen_nb.any_triple(rng, minor=5 if t % 4 == 3 else None)
         strat = ['use-base', 'use-local', 'use-remote'][t % 3]
         variant = 'merge' if t % 4 != 3 else rng.choice(['input', 'output'])
@@ -142,7 +142,7 @@ def _run_property(ctx):
                       {'kind': 'correspondence', 'stream': 'C10 apply', 'first': {k: mism[0][k] for k in ('strategy', 'model')}}, found=False, classify=False)
 
 
-MERGE_MODEL_THEOREMS = ['Nbdime.C10_model_no_conflict', 'Nbdime.C10_cli_no_conflict', 'Nbdime.C10.useArgs_ok']
+MERGE_MODEL_THEOREMS = ['Nbdime.C10_model_no_conflict', 'Nbdime.C10_cli_no_conflict', 'Nbdime.C10.useArgs_ok', 'Nbdime.C10_model_mixed_any_strategy']
 THEOREMS.extend(t for t in MERGE_MODEL_THEOREMS if t not in THEOREMS)
 
 
